@@ -18,11 +18,11 @@ GROUPS = ["ebgp3", "mixed", "rr"]
 START_POLS = ["pre", "all", "local", "post", "none"]
 
 MON_INVS_KF = ["Gap_Sessions", "Gap_AdjIn", "Gap_Dump",
-               "C19_BmpParses", "C19_BmpSession", "C19_BmpBracket", "C19_BmpLocRibBracket", "C19_BmpPeerHeader",
+               "C19_BmpParses", "C19_BmpSession", "C19_BmpReconnect", "C19_BmpBracket", "C19_BmpLocRibBracket", "C19_BmpPeerHeader",
                "C19_BmpPeerUpLocalAddress_KF", "C19_BmpAdjInExact_KF", "C19_BmpPostPolicy_KF", "C19_BmpLocRibExact_KF",
                "C19_MrtParses_KF", "C19_MrtPeerIndex_KF", "C19_MrtTableExact",
                "C19_MrtUpdParses", "C19_MrtUpdHeader", "C19_MrtUpdReplay"]
-SF_INVS_KF = ["Gap_Trunc", "C19_SplitNoPanic", "C19_SplitBounded", "C19_SplitExact_KF", "C19_SplitNeedMore_KF",
+SF_INVS_KF = ["Gap_Trunc", "Gap_Cut", "Gap_Bound", "C19_SplitNoPanic", "C19_SplitBounded", "C19_SplitExact_KF", "C19_SplitNeedMore_KF",
               "C19_SplitComplete_KF", "C19_SplitProgress_KF", "C19_SplitNoOverRead_KF", "C19_ScanTokens",
               "C19_DecNoPanic", "C19_DecTerminates", "C19_DecBufferUntouched", "C19_DecValueOrError",
               "C19_DecNoOverRead_KF", "C19_DecTruncRejected", "C19_RoundTrip_KF", "C19_EncodedLength_KF",
@@ -156,7 +156,7 @@ def codec(run):
             continue
         run.extra["cases_" + part] = len(behs)
         traces = run.execute("c19codec", "pkg/zebra", "^TestVerifC19Codec$", behs, tag="c19-" + part, timeout=1500)
-        validate(run, "StreamFramingTrace", "SFTraceKF.cfg", "SFTraceCount.cfg", traces, behs, group, batch=6000)
+        validate(run, "StreamFramingTrace", "SFTraceKF.cfg", "SFTraceCount.cfg", traces, behs, group, batch=40000)
 
 
 # ---------------------------------------------------------------------------------------
@@ -186,6 +186,7 @@ CONSTANTS
 INVARIANTS
   D_NoNote
   D_Brackets
+  D_Reconnect
   D_AdjIn
   D_Post
   D_LocRib
@@ -262,7 +263,7 @@ def main(run: Run):
 
 LEVEL = "exploration"
 RULE = ("(A) schedules = TLC -simulate walks of spec/MonitorGen.tla (sessions, announcements, withdrawals, API routes, "
-        "peer removal / re-addition over 3 neighbours x 2 prefixes x 6 route variants, BMP station on/off with policy "
+        "peer removal / re-addition over 3 neighbours x 2 prefixes x 6 route variants, BMP station on/off/connection lost with policy "
         "pre/post/local/all, MRT table-dump ticks) for the neighbour sets ebgp3, mixed, rr; executed on the real "
         "BgpServer in virtual time with a BMP station behind the BMP client's connection and both MRT dumpers writing "
         "files; every record is split and parsed back with the packages' own code and folded by the observer model. "
